@@ -14,8 +14,16 @@ RULE = ('generated projects (libraries of all kinds, executables using them, per
         'W:emit: random scripts driven through the real builtins in an in-process build context (compile with header objects / pch / '
         'extra_deps / second output, static+shared libraries, executables sharing objects, command, single- and multi-output build_step, '
         'copy_file, alias, test, default, install); the Rule / Build tuples registered by the real Make and Ninja handlers compared with '
-        'Graph/Emit.v per edge and per script, and with each other (prerequisite sets, target sets)')
-TRUSTED = ('Ninja reader model (no ninja binary): harness/ninjaparse.py + Ninja/NinjaRead.v',
+        'Graph/Emit.v per edge and per script, and with each other (prerequisite sets, target sets). W:compdb: typed argument lists '
+        '(adversarial strings, Paths of 0-3 adversarial components in srcdir / builddir / absolute, jbos mixes of 2-4 bits, literal and '
+        'shell_literal objects, empty strs) under five source/build directory pairs through the real CompDB (arguments and command form); '
+        'in-process projects (global and per-target compile / link options, include directories in both roots, static + shared libraries, '
+        'executables, CFLAGS / LDFLAGS / LDLIBS / CPPFLAGS of the configure environment, Make and Ninja environments) whose compile and '
+        'link edges go through the real compdb, Make and Ninja handlers: entries and written command lines compared with Graph/CompDB.v, '
+        'registered arguments compared with the entry')
+TRUSTED = ('compilation-database model: a rule is abstracted to (tool command, always flags, global / per-target flag and library lists, '
+           'input and output paths) read from the same accessors the handlers call (harness/c06cdb.py compile_step / link_step)',
+           'Ninja reader model (no ninja binary): harness/ninjaparse.py + Ninja/NinjaRead.v',
            'emitter model: an Edge is abstracted to its attribute dump (harness/c03.py abstract_step); the spelling of .stamp / .dir '
            'names is taken from the real Path.addext / parent / append (C12)',
            'real GNU Make 4.3 and dash execute the Makefile with the compiler/linker/archiver replaced by the argv recorder',
